@@ -95,7 +95,9 @@ structure PaxRec where
   valueLen : Nat
   deriving Repr, DecidableEq
 
-/-- failure codes of `read_pax_header`: 1 = malformed, 2 = "numeric overflow" (len beyond the record), 3 = handler -/
+/-- failure classes of `read_pax_header`, named after the diagnostic the C code prints (the harness reads the class off
+stderr): 1 = "Found a malformed PAX header", 2 = "Numeric overflow in PAX header" (len beyond the record), 3 = "Malformed
+decimal value in pax header", 4 = "malformed GNU pax sparse file record", 0 = no diagnostic (LIBARCHIVE.xattr base-64) -/
 inductive FrameRes
   | frame (buf : Bytes) (r : PaxRec) (next : Nat)
   | fail (code : Nat)
@@ -164,8 +166,6 @@ structure PaxOut where
   xattr : List Xattr := []         -- most recent first, as the C list
   offset : Nat := 0                -- local `offset`
   sparseOpen : Bool := false       -- `sparse_last != NULL`
-  /-- 1.2.0 only: `sparse_last` points into a list that `pax_sparse_map` has freed -/
-  stale : Bool := false
   deriving Repr
 
 def PAX_SIZE := 0x001
@@ -188,19 +188,30 @@ def urldecode : Bytes → Bytes
     if c.toNat = 37 ∧ isXDigit a ∧ isXDigit b then UInt8.ofNat ((xdigit a * 16 + xdigit b) % 256) :: urldecode r
     else c :: urldecode (a :: b :: r)
 
+/-- `xattr_key_decode` (pax_header.c, /repo 34384f9; in place, never longer than its input): GNU tar writes `%` and `=`
+inside an xattr key as `%25` and `%3D` (upper case `D` only); every other byte, other escapes included, is copied -/
+def xattrKeyDecode : Bytes → Bytes
+  | [] => []
+  | [c] => [c]
+  | [c, d] => [c, d]
+  | c :: a :: b :: r =>
+    if c.toNat = 37 ∧ a.toNat = 50 ∧ b.toNat = 53 then 37 :: xattrKeyDecode r
+    else if c.toNat = 37 ∧ a.toNat = 51 ∧ b.toNat = 68 then 61 :: xattrKeyDecode r
+    else c :: xattrKeyDecode (a :: b :: r)
+
 /-- `pax_sparse_map`: `off,count[,off,count]*`; each number by `parse_uint(line, -1, &diff, 0, 0, …)` -/
 def sparseMapLoop (buf : Bytes) : Nat → Nat → List SparseEnt → R (List SparseEnt)
   | 0, _, _ => .spin
   | fuel + 1, i, acc =>
     match parseU 10 buf i none true 0 0 with
-    | .oob => .oob | .spin => .spin | .fail _ => .fail 3
+    | .oob => .oob | .spin => .spin | .fail _ => .fail 4
     | .ok (off, d1) =>
       match buf[i + d1]? with
       | none => .oob
       | some c =>
-        if c.toNat ≠ 44 then .fail 3                                   -- `line[diff] != ','`
+        if c.toNat ≠ 44 then .fail 4                                   -- `line[diff] != ','`
         else match parseU 10 buf (i + d1 + 1) none true 0 0 with
-          | .oob => .oob | .spin => .spin | .fail _ => .fail 3
+          | .oob => .oob | .spin => .spin | .fail _ => .fail 4
           | .ok (cnt, d2) =>
             let acc' := { offset := off, count := cnt } :: acc
             match buf[i + d1 + 1 + d2]? with
@@ -210,12 +221,13 @@ def sparseMapLoop (buf : Bytes) : Nat → Nat → List SparseEnt → R (List Spa
               else .ok acc'.reverse
 
 /--
-Apply one framed record to the decoded header.  `fixed = true` is the code after
-fixes/C07-pax-sparse-uaf.patch (`GNU.sparse.map` resets `sparse_last`); with `fixed = false`
-(1.2.0) a `GNU.sparse.numbytes` record that follows `numbytes … map` stores through the
-dangling `sparse_last` — a heap use-after-free, reported as `.oob`.
+Apply one framed record to the decoded header (`find_handler` / `apply_handler` and the two inline
+sparse keys).  `GNU.sparse.map` resets `sparse_last` (pax_header.c: `if (field->type ==
+PAX_TYPE_CONST_STRING) sparse_last = NULL;`, /repo 56b164f).  The 1.2.0 code did not: a
+`GNU.sparse.numbytes` record after `numbytes … map` stored through the freed list — that variant
+lives only in `Sqfs/Witness/C07.lean` (`paxApplyOld`).
 -/
-def paxApply (fixed : Bool) (buf : Bytes) (r : PaxRec) (o : PaxOut) : R PaxOut :=
+def paxApply (buf : Bytes) (r : PaxRec) (o : PaxOut) : R PaxOut :=
   match cstr buf (buf.length + 1) r.key with
   | .oob => .oob | .spin => .spin | .fail c => .fail c
   | .ok key =>
@@ -243,17 +255,16 @@ def paxApply (fixed : Bool) (buf : Bytes) (r : PaxRec) (o : PaxOut) : R PaxOut :
       .ok { o with flags := o.flags ||| PAX_SPARSE_GNU_1_X }
     else if isPrefixOf (([83, 67, 72, 73, 76, 89, 46, 120, 97, 116, 116, 114, 46] : Bytes) /- "SCHILY.xattr." -/) key then
       -- `sqfs_xattr_create(key + strlen(name) + 1, value, valuelen)`: the value is the `valuelen` raw bytes
-      .ok { o with xattr := { key := key.drop 13, value := (buf.drop r.value).take r.valueLen } :: o.xattr }
+      -- … then `pax_xattr_schily` unescapes the key (`xattr_key_decode`)
+      .ok { o with xattr := { key := xattrKeyDecode (key.drop 13), value := (buf.drop r.value).take r.valueLen } :: o.xattr }
     else if isPrefixOf (([76, 73, 66, 65, 82, 67, 72, 73, 86, 69, 46, 120, 97, 116, 116, 114, 46] : Bytes) /- "LIBARCHIVE.xattr." -/) key then
       -- in-place `base64_decode(value, value_len, value, &value_len)`, then `urldecode(key)`
       match base64Decode buf r.value r.valueLen r.valueLen with
       | .ok v => .ok { o with xattr := { key := urldecode (key.drop 17), value := v } :: o.xattr }
-      | .fail _ => .fail 3 | .oob => .oob | .spin => .spin
+      | .fail _ => .fail 0 /- `return -1` without a diagnostic -/ | .oob => .oob | .spin => .spin
     else if key = ([71, 78, 85, 46, 115, 112, 97, 114, 115, 101, 46, 109, 97, 112] : Bytes) /- "GNU.sparse.map" -/ then
       match sparseMapLoop buf (buf.length + 1) r.value [] with
-      | .ok l =>
-        if fixed then .ok { o with sparse := l, sparseOpen := false }
-        else .ok { o with sparse := l, stale := o.sparseOpen }
+      | .ok l => .ok { o with sparse := l, sparseOpen := false }
       | .fail c => .fail c | .oob => .oob | .spin => .spin
     else if key = ([71, 78, 85, 46, 115, 112, 97, 114, 115, 101, 46, 111, 102, 102, 115, 101, 116] : Bytes) /- "GNU.sparse.offset" -/ then
       match parseU 10 buf r.value none true 0 0 with
@@ -264,26 +275,25 @@ def paxApply (fixed : Bool) (buf : Bytes) (r : PaxRec) (o : PaxOut) : R PaxOut :
       | .ok (v, _) =>
         let e : SparseEnt := { offset := o.offset, count := v }
         -- first entry replaces `out->sparse`, later ones are appended behind `sparse_last`
-        if o.stale then .oob else
         .ok (if o.sparseOpen then { o with sparse := o.sparse ++ [e] } else { o with sparse := [e], sparseOpen := true })
       | .fail _ => .fail 1 | .oob => .oob | .spin => .spin
     else .ok o
 
 /-- `read_pax_header` after `record_to_memory`: `buf` = the `entsize` record bytes followed by one NUL -/
-def paxLoop (fixed : Bool) (endIdx : Nat) : Nat → Bytes → Nat → PaxOut → R PaxOut
+def paxLoop (endIdx : Nat) : Nat → Bytes → Nat → PaxOut → R PaxOut
   | 0, _, _, _ => .spin
   | fuel + 1, buf, line, o =>
     if line ≥ endIdx then .ok o
     else match paxFrame buf endIdx line with
       | .oob => .oob | .spin => .spin | .fail c => .fail c
       | .frame buf' r next =>
-        match paxApply fixed buf' r o with
-        | .ok o' => paxLoop fixed endIdx fuel buf' next o'
+        match paxApply buf' r o with
+        | .ok o' => paxLoop endIdx fuel buf' next o'
         | e => e
 
 /-- every record is at least one byte long, so `entsize + 1` iterations always suffice -/
-def readPaxHeader (fixed : Bool) (record : Bytes) : R PaxOut :=
-  paxLoop fixed record.length (record.length + 1) (record ++ [0]) 0 {}
+def readPaxHeader (record : Bytes) : R PaxOut :=
+  paxLoop record.length (record.length + 1) (record ++ [0]) 0 {}
 
 /-! ## GNU 1.0 sparse map (`read_sparse_map_new.c`) -/
 
@@ -376,45 +386,45 @@ def readGnuNewSparse (stream : Bytes) (recordSize : Nat) : R (List SparseEnt × 
 /-! ## old GNU sparse map (`read_sparse_map_old.c`) -/
 
 /-- `parse(in, count, …)` with `in = buf + i`: entries of 24 bytes; `(stopped, entries)`, `stopped` = returned 1 -/
-def oldParse (fixed : Bool) (buf : Bytes) : Nat → Nat → List SparseEnt → R (Bool × List SparseEnt)
+def oldParse (buf : Bytes) : Nat → Nat → List SparseEnt → R (Bool × List SparseEnt)
   | 0, _, acc => .ok (false, acc)
   | cnt + 1, i, acc =>
     match buf[i]?, buf[i + 12]? with
     | some a, some b =>
       if !isDigit a || !isDigit b then .ok (true, acc)
-      else match readNumber fixed buf i 12 with
+      else match readNumber buf i 12 with
         | .oob => .oob | .spin => .spin | .fail c => .fail c
         | .ok off =>
-          match readNumber fixed buf (i + 12) 12 with
+          match readNumber buf (i + 12) 12 with
           | .oob => .oob | .spin => .spin | .fail c => .fail c
-          | .ok sz => oldParse fixed buf cnt (i + 24) (acc ++ [{ offset := off, count := sz }])
+          | .ok sz => oldParse buf cnt (i + 24) (acc ++ [{ offset := off, count := sz }])
     | _, _ => .oob
 
 /-- the `do … while` over extension records of 512 bytes (21 entries, `isextended` at offset 504) -/
-def oldExt (fixed : Bool) : Nat → Bytes → List SparseEnt → R (List SparseEnt × Bytes)
+def oldExt : Nat → Bytes → List SparseEnt → R (List SparseEnt × Bytes)
   | 0, _, _ => .spin
   | fuel + 1, stream, acc =>
     if stream.length < 512 then .fail 2                                  -- unexpected end-of-file
     else
       let blk := stream.take 512
-      match oldParse fixed blk 21 0 acc with
+      match oldParse blk 21 0 acc with
       | .oob => .oob | .spin => .spin | .fail c => .fail c
       | .ok (stopped, acc') =>
         match blk[504]? with
         | none => .oob
         | some ext =>
-          if !stopped && ext.toNat ≠ 0 then oldExt fixed fuel (stream.drop 512) acc'
+          if !stopped && ext.toNat ≠ 0 then oldExt fuel (stream.drop 512) acc'
           else .ok (acc', stream.drop 512)
 
 /-- `read_gnu_old_sparse(fp, hdr)`: `hdr` = the 512 header bytes (4 entries at 386, `isextended` at 482) -/
-def readGnuOldSparse (fixed : Bool) (hdr stream : Bytes) : R (List SparseEnt × Bytes) :=
-  match oldParse fixed hdr 4 386 [] with
+def readGnuOldSparse (hdr stream : Bytes) : R (List SparseEnt × Bytes) :=
+  match oldParse hdr 4 386 [] with
   | .oob => .oob | .spin => .spin | .fail c => .fail c
   | .ok (stopped, acc) =>
     match hdr[482]? with
     | none => .oob
     | some ext =>
       if stopped || ext.toNat = 0 then .ok (acc, stream)
-      else oldExt fixed (stream.length / 512 + 1) stream acc
+      else oldExt (stream.length / 512 + 1) stream acc
 
 end Sqfs.ParseTotal
